@@ -215,12 +215,16 @@ theorem zeroTest_fresh (g : GState) (v : LV) (op : COp) (label : Lbl) : Fresh g 
   unfold zeroTest
   by_cases h : g.flags = some v <;> cases op <;> simp [h, Fresh, Mono, NewIn, labels_loadRef]
 
+theorem labels_cmpPre (left : LV) (right : Atom) : labels (cmpPre left right) = [] := by
+  cases left <;> first | rfl | (cases right <;> first | rfl | (rename_i i; cases i <;> rfl))
+
 theorem cmpTest_fresh (g : GState) (v : LV) (right : Atom) (op : COp) (label : Lbl) :
     Fresh g (cmpTest g v right op label) := by
   unfold cmpTest
   have := branchInstr_fresh { g with flags := none } op label
   simp at this
-  have hp : labels (cmpPre v right) = [] := by cases v <;> rfl
+  have hp : labels (cmpPre v right) = [] := by
+    cases v <;> first | rfl | (cases right <;> first | rfl | (rename_i i; cases i <;> rfl))
   exact fresh_prepend g (cmpPre v right) _ hp this
 
 theorem genCondEx_fresh (g : GState) (l r : RA) (op : COp) (negate : Bool) (label : Lbl) :
@@ -231,6 +235,9 @@ theorem genCondEx_fresh (g : GState) (l r : RA) (op : COp) (negate : Bool) (labe
   · split
     · exact zeroTest_fresh ..
     · exact cmpTest_fresh ..
+  · split
+    · exact zeroTest_fresh ..
+    · exact cmpTest_fresh ..
   · exact fresh_nolabels g [] rfl
   · split
     · exact zeroTest_fresh ..
@@ -240,9 +247,9 @@ theorem genCondEx_fresh (g : GState) (l r : RA) (op : COp) (negate : Bool) (labe
     · exact cmpTest_fresh ..
   · exact fresh_nolabels g [] rfl
 
-theorem labels_flatLines (s : RStmt) : labels (flatLines s) = [] := by
+theorem labels_flatLines (zp : String → Bool) (s : RStmt) : labels (flatLines zp s) = [] := by
   unfold flatLines
-  generalize rtemplate (none : Option Atom) (fun a => some a) s = t
+  generalize rtemplate (none : Option Atom) (fun a => some a) zp s = t
   induction t with
   | nil => rfl
   | cons x xs ih => simpa using ih
